@@ -27,6 +27,17 @@ Print Assumptions writer_valid_json_direct.
 Example writer_valid_json_witness : writable witness_table.
 Proof. exact ValidatorProofs.witness_writable. Qed.
 
+(* date_ok follows the six strptime formats of _valid_date: what isoformat() gives for a tz-aware
+   datetime is accepted (so `writable` covers such tables), a corrupt offset is not *)
+Theorem date_offsets :
+  forallb date_ok [K "2024-02-29T13:14:15+00:00"; K "2024-02-29T13:14:15.000007+05:30"; K "2024-02-29T13:14:15-05:30";
+                   K "2024-02-29T13:14:15Z"; K "2024-02-29T13:14:15+0530"; K "2024-02-29T13:14:15+05:30:15.5"] = true
+  /\ existsb date_ok [K "2024-02-29T13:14:15+0"; K "2024-02-29T13:14:15+25:00"; K "2024-02-29T13:14:15+05:30x";
+                       K "2024-02-29T13:14:15z"; K "2024-02-29T13:14+00:00"; K "2024-02-29+00:00";
+                       K "2024-02-29T13:14:15+0530:15"; K "2024-02-29T13:14:15+05:3015"; K "2024-02-29T13:14:15+00:60"] = false.
+Proof. exact ValidatorProofs.date_offsets. Qed.
+Print Assumptions date_offsets.
+
 (* --- a "valid" verdict guarantees the structure --- *)
 
 (* valid_doc j (Proofs/ValidatorProofs.v) says: j is an object with all twelve required keys;
